@@ -442,7 +442,12 @@ func (mr MeshReader) Read(reader io.Reader) (*modeling.Mesh, error) {
 		// Read data
 		scanner := bufio.NewScanner(reader)
 		for i := int64(0); i < vertexElement.Count; i++ {
-			scanner.Scan()
+			if !scanner.Scan() {
+				if err := scanner.Err(); err != nil {
+					return nil, err
+				}
+				return nil, io.ErrUnexpectedEOF
+			}
 
 			text := scanner.Text()
 			if text == "" {
@@ -450,6 +455,9 @@ func (mr MeshReader) Read(reader io.Reader) (*modeling.Mesh, error) {
 			}
 
 			contents := strings.Fields(text)
+			if len(contents) < len(vertexElement.Properties) {
+				return nil, io.ErrUnexpectedEOF
+			}
 
 			for _, reader := range asciiReaders {
 				err = reader.Read(contents, i)
@@ -580,7 +588,12 @@ func readAsciiFaceElement(element Element, scanner *bufio.Scanner) ([]int, []vec
 
 	var i int
 	for i < int(element.Count) {
-		scanner.Scan()
+		if !scanner.Scan() {
+			if err := scanner.Err(); err != nil {
+				return nil, nil, err
+			}
+			return nil, nil, io.ErrUnexpectedEOF
+		}
 		line := scanner.Text()
 
 		if line == "" {
